@@ -79,3 +79,9 @@ Proof.
   - congruence.
   - eauto.
 Qed.
+
+(* C13 of the registers layer: no accessor writes to the payload *)
+Lemma dep_access_keeps_data r a addr : snd (access r a addr) = r_data r.
+Proof. apply access_keeps_data. Qed.
+Lemma dep_set_data_same r : set_data r (r_data r) = r.
+Proof. apply set_data_same. Qed.
